@@ -223,6 +223,19 @@ CHECKS["C10"] = dict(
          "Threads are C18 (not applicable).",
     ref="DESIGN.md 5/C10")
 
+CHECKS["C05"] = dict(
+    technique=TECH + " - decode/encode round trips per lossless converter on valid instances drawn by symbolic indices; strict-mode encode of "
+                     "decoded data damaged by a symbolic (mutation, instance) choice (finite choice)",
+    category="model_checking",
+    text="Round trip: for every instance of the bound (lexical variants of an int, 0-2 simple-content elements with a boolean attribute, an "
+         "optional nested complex element with decimal/date children, an optional int list) and each of the default, BadgerFish, GData, JsonML "
+         "and DataElement converters, encode(decode(x)) is valid, has the same element structure and attribute names, decodes to the same data "
+         "as the original and reproduces the converter's own data. Encoder soundness: for each of 11 mutations (drop, duplicate, retype, "
+         "reorder, add entries) of the decoded data of every instance, strict encode raises a library error or returns XML the schema accepts.",
+    note="Finite-choice. Free symbolic Python data does not reach 'Confirmed' (measured), so mutations are enumerated kinds. Known finding: None "
+         "as value of a required simple element is encoded to an invalid empty element. Lossy converters excluded by the property's wording.",
+    ref="DESIGN.md 5/C05")
+
 NOT_APPLICABLE = {
     "C18": "quantifies over thread interleavings; no engine of this family here executes Python threads symbolically (CrossHair is "
            "single-threaded); see DESIGN.md section 6",
